@@ -283,8 +283,24 @@ def run(ctx):
             ok, w = False, w1
     ctx.check("R4-unlock-aborts", where, ok and len(ab) >= 2, "the remote lock is released only after the real repository was unlocked / pending write-group tokens aborted", message="RemoteRepository.unlock releases the remote lock without dealing with the pending write group", witness=g.show_path(w) if w else None)
 
+    # ---- R6: a refused commit leaves the write group as it was; resumed packs are all committed ----------------------
+    fnr, gr_, wr_ = fn_cfg(ctx, PR, "PackRepository._commit_write_group")
+    cw = need(wr_, calling(gr_, attr="_commit_write_group", recv="self._pack_collection"), "self._pack_collection._commit_write_group()")
+    ck = need(wr_, calling(gr_, attr="clear_key_dependencies"), "clear_key_dependencies()")
+    xs = [b for n_ in cw for (b, l_) in gr_.succ[n_] if l_ == "X"]
+    ctx.check("R6-refusal-keeps-tracking", wr_, not (set(ck) & gr_.reach(xs, include_src=True)), "the new-revision tracking (key dependencies) is cleared only after the pack collection committed — a refused commit keeps it, so that a second commit_write_group() is refused for the same reason", message="clear_key_dependencies() is reached when _pack_collection._commit_write_group() raised: after a correctly refused commit the write group no longer knows its new revisions, and a second commit_write_group() passes the completeness check and publishes them without their inventories/texts")
+    ctx.check("R6-refusal-keeps-tracking", wr_, gr_.always_before(cw, ck)[0], "the tracking is cleared after (never before) the commit")
+    for meth in ("_commit_write_group", "_abort_write_group"):
+        fq = repo.func(PR, f"{COLL}.{meth}")
+        for l_ in [n for n in walk_own(fq) if isinstance(n, ast.For) and norm(n.iter) == "self._resumed_packs"]:
+            muts = [norm(c)[:60] for c in calls_in(l_) if call_recv(c) == "self._resumed_packs" and call_attr(c) in ("remove", "pop", "append", "insert", "clear", "extend")] + [norm(d)[:60] for d in ast.walk(l_) if isinstance(d, ast.Delete) and "self._resumed_packs" in norm(d)]
+            ctx.check("R6-resumed-packs-all-handled", f"{PR}:{COLL}.{meth}", not muts, f"{meth} does not change self._resumed_packs while iterating over it", construct="; ".join(muts), message=f"{meth} mutates self._resumed_packs inside the loop over it ({'; '.join(muts)}): every second resumed pack is skipped — it is never finished and listed, its files stay in upload/ and it leaks into the next write group")
+        cleared = any(isinstance(d, ast.Delete) and norm(d) == "del self._resumed_packs[:]" for d in walk_own(fq)) or any(call_attr(c) == "clear" and call_recv(c) == "self._resumed_packs" for c in calls_in(fq))
+        ctx.check("R6-resumed-packs-all-handled", f"{PR}:{COLL}.{meth}", cleared, f"{meth} forgets all resumed packs at the end")
 
 MUTANTS = [
+    Mutant("key dependencies cleared in a finally", PR, "        hint = self._pack_collection._commit_write_group()\n        self.revisions._index.clear_key_dependencies()\n", "        try:\n            hint = self._pack_collection._commit_write_group()\n        finally:\n            self.revisions._index.clear_key_dependencies()\n", expect="R6-refusal-keeps-tracking"),
+    Mutant("resumed packs removed while iterating", PR, "            self.allocate(resumed_pack)\n            any_new_content = True\n        del self._resumed_packs[:]\n", "            self.allocate(resumed_pack)\n            self._resumed_packs.remove(resumed_pack)\n            any_new_content = True\n", expect="R6-resumed-packs-all-handled"),
     Mutant("_check_new_inventories after finish", PR, "        problems = self._check_new_inventories()\n        if problems:\n            problems_summary = \"\\n\".join(problems)\n            raise BzrCheckError(\n                \"Cannot add revision(s) to repository: \" + problems_summary\n            )\n        self._remove_pack_indices(self._new_pack)\n", "        self._remove_pack_indices(self._new_pack)\n        problems = self._check_new_inventories()\n        if problems:\n            problems_summary = \"\\n\".join(problems)\n            raise BzrCheckError(\n                \"Cannot add revision(s) to repository: \" + problems_summary\n            )\n", expect="R1-check-before-change"),
     Mutant("missing compression parents only logged", PR, "        if all_missing:\n            raise BzrCheckError(", "        if all_missing and debug.debug_flag_enabled(\"strict\"):\n            raise BzrCheckError(", expect="R1-refuse-missing-parents"),
     Mutant("abort skips resumed packs", PR, "                resumed_pack.abort()\n        del self._resumed_packs[:]\n\n    def _remove_resumed_pack_indices", "                pass\n        del self._resumed_packs[:]\n\n    def _remove_resumed_pack_indices", expect="R2-abort-resumed"),
